@@ -309,6 +309,162 @@ def h_semimdp(sk, pkind, terminal, start, nsim, include_actions):
         S.check('SemiMDP:only-the-private-seeded-generator-is-used', S.truth(not [u for u in uses if 'Random' not in u]), detail=repr(uses))
 
 
+# ---------------------------------------------------------------- tier U: abstract base MDP (uninterpreted components), arbitrary atoms
+
+def _abstract_base(tag='base'):
+    import z3
+    from symrun.absx import Atom
+    from msdm.core.mdp import MarkovDecisionProcess
+    I, B, Rl = z3.IntSort(), z3.BoolSort(), z3.RealSort()
+    Abs, Rw = z3.Function('Abs_' + tag, I, B), z3.Function('Rw_' + tag, I, I, I, Rl)
+    g = S.real('gamma_' + tag)
+    d0 = ('initial_state_dist', tag)
+
+    class Base(MarkovDecisionProcess):
+        def __init__(self): self.discount_rate = g           # instance attribute, as the built-in domains set it
+        def initial_state_dist(self): return d0
+        def actions(self, s): return ('actions', tag, s)
+        def next_state_dist(self, s, a): return ('next_state_dist', tag, s, a)
+        def reward(self, s, a, ns): return S.SymReal(Rw(s.e, a.e, ns.e))
+        def is_absorbing(self, s): return S.SymBool(Abs(s.e))
+    return Base(), dict(Abs=Abs, Rw=Rw, gamma=g, d0=d0, tag=tag)
+
+
+def _same(got, want):
+    return isinstance(got, tuple) and len(got) == len(want) and all(x is y for x, y in zip(got, want))
+
+
+def h_augment_U(mask):
+    """augment() over an ABSTRACT base MDP: for arbitrary states/actions (atoms) every non-overridden component returns what the base returns, every overridden one
+    what the override returns; the discount rate is the base's; the base is untouched.  No skeleton, no bound."""
+    import z3
+    from symrun.absx import fresh_atom
+    base, u = _abstract_base()
+    ov = _abstract_base('ovr')[1]
+    s, a, ns = fresh_atom('s'), fresh_atom('a'), fresh_atom('ns')
+    over = {}
+    if mask & 1:
+        over['initial_state_dist'] = lambda: ov['d0']
+    if mask & 2:
+        over['actions'] = lambda x: ('actions', 'ovr', x)
+    if mask & 4:
+        over['next_state_dist'] = lambda x, y: ('next_state_dist', 'ovr', x, y)
+    if mask & 8:
+        over['reward'] = lambda x, y, z: S.SymReal(ov['Rw'](x.e, y.e, z.e))
+    if mask & 16:
+        over['is_absorbing'] = lambda x: S.SymBool(ov['Abs'](x.e))
+    aug = opt.augment(base, **over)
+    t = lambda bit: 'ovr' if mask & bit else 'base'
+    w = lambda bit: ov if mask & bit else u
+    S.check('U:augment:initial_state_dist', S.truth(aug.initial_state_dist() is w(1)['d0']))
+    S.check('U:augment:actions', S.truth(_same(aug.actions(s), ('actions', t(2), s))))
+    S.check('U:augment:next_state_dist', S.truth(_same(aug.next_state_dist(s, a), ('next_state_dist', t(4), s, a))))
+    S.check('U:augment:reward', S.eq(aug.reward(s, a, ns), S.SymReal(w(8)['Rw'](s.e, a.e, ns.e))))
+    S.check('U:augment:is_absorbing', S.Iff(S.truth(aug.is_absorbing(s)) if isinstance(aug.is_absorbing(s), bool) else aug.is_absorbing(s), S.SymBool(w(16)['Abs'](s.e))))
+    S.check('U:augment:discount-rate-is-the-base-discount-rate', S.eq(aug.discount_rate, u['gamma']))
+    S.check('U:augment:base-is-not-modified', S.And([S.eq(base.discount_rate, u['gamma']), S.truth(_same(base.actions(s), ('actions', 'base', s))),
+                                                     S.truth(base.initial_state_dist() is u['d0']), S.Iff(base.is_absorbing(s), S.SymBool(u['Abs'](s.e))),
+                                                     S.eq(base.reward(s, a, ns), S.SymReal(u['Rw'](s.e, a.e, ns.e)))]))
+
+
+class _AbsSet:
+    """a container whose membership is an uninterpreted predicate (any set of labels, of any size)"""
+    def __init__(self, pred): self.pred = pred
+    def __contains__(self, x): return bool(S.SymBool(self.pred(x.e)))       # forks
+
+
+def h_sub_task_U(include_abs, clip):
+    """PlanToSubgoalOption.sub_task over an abstract base MDP, abstract sub-goal / initiation sets, symbolic clipping level"""
+    import z3
+    from symrun.absx import fresh_atom
+    base, u = _abstract_base()
+    I, B = z3.IntSort(), z3.BoolSort()
+    Goal, Ini = z3.Function('Goal', I, B), z3.Function('Ini', I, B)
+    goals, inits = _AbsSet(Goal), _AbsSet(Ini)
+    cl = S.real('clip') if clip else float('inf')
+    M_ = S.integer('max_steps', 0, None)
+
+    class UniformStub:
+        @staticmethod
+        def uniform(x): return ('uniform', x)
+    s, a, ns = fresh_atom('s'), fresh_atom('a'), fresh_atom('ns')
+    with patched((opt, dict(DictDistribution=UniformStub))):
+        o = opt.PlanToSubgoalOption(mdp=base, initial_states=inits, subgoals=goals, planner=None, include_mdp_absorbing_states=include_abs,
+                                    name='o1', max_steps=M_, max_nonterminal_pseudoreward=cl)
+        st = o.sub_task
+        R = S.SymReal(u['Rw'](s.e, a.e, ns.e))
+        got = st.reward(s, a, ns)
+        S.check('U:sub_task:reward-is-the-base-reward-clipped-unless-the-successor-is-a-subgoal',
+                S.eq(got, S.If(S.SymBool(Goal(ns.e)), R, S.Min([R, cl]) if clip else R)))
+        ab = st.is_absorbing(s)
+        ab = S.truth(ab) if isinstance(ab, bool) else ab
+        want = S.Or([S.SymBool(Goal(s.e)), S.SymBool(u['Abs'](s.e))]) if include_abs else S.SymBool(Goal(s.e))
+        S.check('U:sub_task:absorbing-states-are-the-subgoals(+base-absorbing-if-requested)', S.Iff(ab, want))
+        S.check('U:sub_task:initial-distribution-is-DictDistribution.uniform(initiation-set)', S.truth(_same(st.initial_state_dist(), ('uniform', inits))))
+        S.check('U:sub_task:discount-is-the-base-discount', S.eq(st.discount_rate, u['gamma']))
+        S.check('U:sub_task:transitions-and-actions-are-the-base-ones', S.truth(_same(st.actions(s), ('actions', 'base', s)) and
+                                                                               _same(st.next_state_dist(s, a), ('next_state_dist', 'base', s, a))))
+        S.check('U:PlanToSubgoalOption:is_initial/is_terminal/name/max_steps', S.And([
+            S.Iff(S.truth(o.is_initial(s)), S.SymBool(Ini(s.e))), S.Iff(S.truth(o.is_terminal(s)), S.SymBool(Goal(s.e))), S.truth(o.name == 'o1'), S.truth(o.max_steps is M_)]))
+
+
+def h_option_run_U():
+    """Option.run_on checked against the CONTRACT of Policy.run_on (C14, tier U) instead of its body: the callee is handed an MDP whose absorbing predicate is the
+    option's terminal predicate and whose other components are the base's, the option's start state / step limit / generator; by the callee's postcondition the
+    roll-out has k <= max_steps steps and ends in a state that is absorbing for that MDP unless k == max_steps.  Then: the option returns that very roll-out
+    and it ends at a terminal state, or it raises and k + 1 >= max_steps.  Abstract base MDP, symbolic step limit, no bound."""
+    import z3
+    from symrun.absx import fresh_atom
+    base, u = _abstract_base()
+    I, B = z3.IntSort(), z3.BoolSort()
+    Term = z3.Function('Term', I, B)
+    M_ = S.integer('max_steps', 0, None)
+    start = fresh_atom('start')
+    the_rng = object()
+    calls = []
+
+    class Result:
+        def __init__(self, k, final): self.k, self.final = k, final
+
+    class StubPolicy:
+        def run_on(self, mdp, initial_state=None, max_steps=None, rng=None):
+            calls.append(dict(mdp=mdp, initial_state=initial_state, max_steps=max_steps, rng=rng))
+            k = S.integer('k_steps', 0, None)
+            fs = fresh_atom('final_state')
+            S.assume(S.le(k, max_steps))                                              # callee postcondition (C14 U: stops at the cap)
+            ab = mdp.is_absorbing(fs)                                                 # ... evaluated on the MDP the callee was actually given
+            ab = S.truth(ab) if isinstance(ab, bool) else ab
+            S.assume(S.Or([ab, S.eq(k, max_steps)]))                                  # callee postcondition (C14 U: ... or at the first absorbing state)
+            return Result(k, fs)
+
+    def symlen(x):
+        return x.k + 1 if isinstance(x, Result) else len(x)                            # SimulationResult.__len__ = number of steps + the final bare step
+    o = SimpleOption(StubPolicy(), _AbsSet(Term), M_)
+    with patched((opt, dict(len=symlen))):
+        try:
+            res = o.run_on(base, initial_state=start, rng=the_rng)
+            raised = False
+        except AlgorithmException:
+            raised, res = True, None
+    S.check('U:Option.run_on:delegates-exactly-once', S.truth(len(calls) == 1))
+    c = calls[0]
+    sub = c['mdp']
+    s, a, ns = fresh_atom('s'), fresh_atom('a'), fresh_atom('ns')
+    ab = sub.is_absorbing(s)
+    ab = S.truth(ab) if isinstance(ab, bool) else ab
+    S.check('U:Option.run_on:roll-out-MDP-is-the-base-with-absorbing=terminal', S.And([
+        S.Iff(ab, S.SymBool(Term(s.e))), S.truth(_same(sub.actions(s), ('actions', 'base', s))), S.truth(_same(sub.next_state_dist(s, a), ('next_state_dist', 'base', s, a))),
+        S.eq(sub.reward(s, a, ns), S.SymReal(u['Rw'](s.e, a.e, ns.e))), S.eq(sub.discount_rate, u['gamma'])]))
+    S.check('U:Option.run_on:passes-start-state,step-limit-and-generator', S.truth(c['initial_state'] is start and c['max_steps'] is M_ and c['rng'] is the_rng))
+    k = S.cur().inputs['k_steps']
+    k = S.SymReal(k) if not isinstance(k, S.SymReal) else k
+    if raised:
+        S.check('U:Option.run_on:raises-only-at-its-step-limit', S.ge(k + 1, M_))
+    else:
+        S.check('U:Option.run_on:returns-the-roll-out;it-ends-at-a-terminal-state-below-the-step-limit',
+                S.And([S.truth(isinstance(res, Result)), S.SymBool(Term(res.final.e)), S.lt(k + 1, M_, tol=0)]))
+
+
 def rt_plan_to_subgoal(seed, n):
     """R: PlanToSubgoalOption plans on the sub-task with the base discount (un-stubbed ValueIteration), policy reaches the sub-goal"""
     from msdm.algorithms import ValueIteration
@@ -363,6 +519,12 @@ def tasks(tier, seed):
         for nsim in (1, 2):
             for inc in (False, True):
                 T.append(Task('semimdp/%s/n%d/inc%d' % (pk, nsim, inc), h_semimdp, (cor, pk, (4,), 1, nsim, inc), tier='B', max_paths=6000))
+    for mask in range(32):
+        T.append(Task('U/augment/abstract-base/mask%02d' % mask, h_augment_U, (mask,), tier='U', note='uninterpreted base components, arbitrary atoms'))
+    for inc in (False, True):
+        for clip in (False, True):
+            T.append(Task('U/sub_task/abstract-base/inc%d/clip%d' % (inc, clip), h_sub_task_U, (inc, clip), tier='U', note='abstract sub-goal and initiation sets'))
+    T.append(Task('U/option_run/by-callee-contract', h_option_run_U, (), tier='U', note='Policy.run_on replaced by its C14 tier-U contract; symbolic step limit'))
     T.append(Task('rt/plan-to-subgoal', rt_plan_to_subgoal, (seed, 6 if tier == 'quick' else 30), tier='R', kind='rt'))
     return T
 
@@ -376,3 +538,21 @@ MANIFEST_ENTRY = dict(
     note='Bounded skeletons, option step limits <=6, simulation counts <=2 (tier B); run-time tier for planning with the base discount.',
 )
 END_MANIFEST_ENTRY = True
+
+
+SENTINELS = [
+    Sentinel('U:augment-drops-the-discount-rate', 'msdm.core.semimdp.option', "    AugmentedMDP.discount_rate = mdp.discount_rate\n", "    AugmentedMDP.discount_rate = 1.0\n",
+             ['U/augment/abstract-base/mask00']),
+    Sentinel('U:augment-ignores-a-reward-override', 'msdm.core.semimdp.option', "        AugmentedMDP.reward = staticmethod(reward)", "        AugmentedMDP.reward = mdp.reward",
+             ['U/augment/abstract-base/mask08']),
+    Sentinel('U:sub_task-clips-rewards-into-subgoals-too', 'msdm.core.semimdp.option', "            if self.is_terminal(ns):\n                return real_reward", "            if False:\n                return real_reward",
+             ['U/sub_task/abstract-base/inc0/clip1']),
+    Sentinel('U:sub_task-always-includes-base-absorbing-states', 'msdm.core.semimdp.option', "            if self.include_mdp_absorbing_states:\n", "            if True:\n",
+             ['U/sub_task/abstract-base/inc0/clip0']),
+    Sentinel('U:option-roll-out-stops-at-base-absorbing-states-instead', 'msdm.core.semimdp.option', "            is_absorbing=lambda s : self.is_terminal(s),", "            is_absorbing=lambda s : mdp.is_absorbing(s),",
+             ['U/option_run/by-callee-contract']),
+    Sentinel('U:option-step-limit-off-by-one', 'msdm.core.semimdp.option', "        if len(result) >= self.max_steps:", "        if len(result) > self.max_steps + 1:",
+             ['U/option_run/by-callee-contract']),
+    Sentinel('U:option-ignores-the-generator', 'msdm.core.semimdp.option', "            max_steps=self.max_steps,\n            rng=rng\n", "            max_steps=self.max_steps,\n",
+             ['U/option_run/by-callee-contract']),
+]
